@@ -160,7 +160,8 @@ def probe_export():
         rows2 = _snap(flow.to_rows())
     except Exception:  # noqa: BLE001  (stale scratch state made the export fail: it is not reset)
         rows2 = None
-    scratch_reset = bool(poisoned) and rows2 == rows1
+    # (an export that keeps its traversal state in local variables has nothing to poison: the second export must simply agree)
+    scratch_reset = rows2 == rows1
     # a node the DFS does not reach: are its row models emptied as well?
     if rows2 != rows1:
         flow = FC.from_dict(_flow_dict())       # a fresh object for the second question
